@@ -40,6 +40,8 @@ def gen_case(rng, eq):
         polys = [{(0,): rng.randint(2, 5), (1,): rng.randint(0, 3), (2,): rng.randint(0, 2)} for _ in range(m)]
         c.update(d=0, polys=polys, pt=[rng.randint(0, 4) / 4], nus=[dy(rng), dy(rng)] + [dy(rng) for _ in range(m)],
                  shared_params=rng.random() < 0.5, tmax=rng.choice(TMAX))
+        if c["shared_params"] and rng.random() < 0.5:     # a seasonal growth rate r(t) = r * profile(t), declared through eq_params_heterogeneity
+            c["het_t"] = {(0,): rng.randint(1, 3), (1,): rng.randint(-2, 2)}
     elif eq == "mass":
         c.update(d=2, polys=[prand(rng, 2, 3, 3) or {(0, 0): 1} for _ in range(2)], pt=[dy(rng), dy(rng)], nus=[], tmax=1.0,
                  shared_params=rng.random() < 0.5)
@@ -98,7 +100,12 @@ def evaluate(c):
         else:
             eqp = {nm[k]: (main if k == 0 else {"growth_rate": A(9.0), "carrying_capacity": A(9.0), "interactions": jnp.ones((m,)) * 9.0, "u0": A(u0[k])}) for k in range(m)}
         PD = ParamsDict(nn_params={k: u.init_params() for k, u in us.items()}, eq_params=eqp)
-        L = jinns.loss.GeneralizedLotkaVolterra(key_main=nm[0], keys_other=[nm[k] for k in range(1, m)], Tmax=c["tmax"])
+        hkw = {}
+        if c.get("het_t"):
+            prof = c["het_t"]
+            hkw["eq_params_heterogeneity"] = {"growth_rate": (lambda t, u, params: params.eq_params["growth_rate"] * poly_jax(prof, jnp.atleast_1d(t))),
+                                              "carrying_capacity": None, "interactions": None, "u0": None}
+        L = jinns.loss.GeneralizedLotkaVolterra(key_main=nm[0], keys_other=[nm[k] for k in range(1, m)], Tmax=c["tmax"], **hkw)
         return [float(v) for v in np.asarray(L.evaluate(jnp.array([pt[0]]), us, PD)).ravel()]
     x = jnp.array(pt)
     if eq == "mass":
@@ -117,6 +124,9 @@ def case_term(cid, c, obs):
     if c["eq"] == "glv" and c.get("u0"):       # population k is u0_k * polynomial_k (u0 shared when the parameters are)
         u0 = [c["u0"][0]] * len(c["polys"]) if c["shared_params"] else c["u0"]
         c = dict(c, polys=[{es: v * s for es, v in p.items()} for p, s in zip(c["polys"], u0)])
+    if c.get("het_t"):        # inside the equation the growth rate is r * profile(t) at the evaluation time
+        from poly import peval
+        c = dict(c, nus=[c["nus"][0] * peval(c["het_t"], c["pt"][:1])] + list(c["nus"][1:]))
     if c.get("het"):          # inside the equation the growth rate is r * profile(x) at the evaluation point
         from poly import peval
         c = dict(c, nus=[c["nus"][0], c["nus"][1] * peval(c["het"], c["pt"][1:]), c["nus"][2]])
@@ -198,7 +208,7 @@ def manufactured(rng, n):
 
 def jsonable(c):
     out = dict(c, polys=[[[list(k), v] for k, v in sorted(p.items())] for p in c["polys"]])
-    for extra in ("het", "aux"):
+    for extra in ("het", "aux", "het_t"):
         if c.get(extra):
             out[extra] = [[list(k), v] for k, v in sorted(c[extra].items())]
     out.pop("_repeat_differs", None)
@@ -207,7 +217,7 @@ def jsonable(c):
 
 def unjson(c):
     out = dict(c, polys=[{tuple(k): v for k, v in p} for p in c["polys"]])
-    for extra in ("het", "aux"):
+    for extra in ("het", "aux", "het_t"):
         if c.get(extra):
             out[extra] = {tuple(k): v for k, v in c[extra]}
     return out
